@@ -677,7 +677,17 @@ impl Schema {
                     items * (words * word + (regions - words) * small)
                 }
             }
-            // tuple_len (gvar/cvar tuple headers) → not expressible here
+            // TupleVariationHeader: axis_count coordinates when EMBEDDED_PEAK_TUPLE (0x8000, which=0) /
+            // INTERMEDIATE_REGION (0x4000, which=1) is set in tupleIndex, else none
+            ("tuple_len", 3) => {
+                let (idx, axes, which) = (us(arg(a[0])?), us(arg(a[1])?), arg(a[2])?);
+                let flag = if which == 0 { 0x8000 } else { 0x4000 };
+                if idx & flag != 0 {
+                    axes
+                } else {
+                    0
+                }
+            }
             _ => return Err(()),
         };
         Ok(Some(r))
